@@ -214,7 +214,7 @@ fn part_e(maxn: usize) -> Acc {
 
 /// (f) the same laws on nodes with 22 .. 256 assertions (array heads, any size-dependent path in the duplicate check or the sort)
 fn part_f(th: bool) -> Acc {
-    let shapes: Vec<(String, M)> = families::wide_all(th).into_iter().filter(|(n, _)| n.starts_with("node-") || n.starts_with("sweep-node-") || n == "wide-node-as-object").collect();
+    let shapes: Vec<(String, M)> = families::wide_all(th).into_iter().filter(|(n, _)| n.starts_with("node-") || n.starts_with("sweep-node-") || n == "wide-node-as-object").chain(families::valued_multi()).collect();
     shapes.par_iter().with_max_len(1).map(|(wn, m)| {
         let mut acc = Acc::new();
         let (sm, am) = match m { M::Node(s, a) => ((**s).clone(), a.clone()), _ => return acc };
